@@ -106,6 +106,10 @@ func checkMain(args []string) {
 	evPath := *evidence
 	if evPath == "" {
 		evPath = filepath.Join(verifRoot, "evidence", *prop+".json")
+		if d := os.Getenv("GOCV_EVIDENCE_DIR"); d != "" {
+			// runs against deliberately modified trees (seeded changes) must not overwrite the evidence
+			evPath = filepath.Join(d, *prop+".json")
+		}
 	}
 	os.MkdirAll(filepath.Dir(evPath), 0o755)
 	os.MkdirAll(filepath.Join(verifRoot, "replays"), 0o755)
